@@ -29,6 +29,8 @@ CLAIMED = {
          "static analysis: lock-region dominance and guard-liveness on the MIR CFG (RF-ORDER, RF-BIND)"),
  'C13': ("Static rule checking: each read request fetches the epoch record exactly once along every call-graph path and generates all proofs and the returned EpochHash from that snapshot; as-of-epoch node selection is checked; the change poller flushes and re-fetches under the write lock before notifying and compares an uncached read; flush clears all record-holding state; request paths reach no storage write and drop no Result; the read-only wrapper forwards unchanged. Real interleavings are not executed.",
          "static analysis: call-graph snapshot provenance, dominance chains, effect sets (RF-SNAP, RF-ORDER, RF-EFFECT, RF-ERR, RF-SIB)"),
+ 'C19': ("Static rule checking of the protobuf conversion layer: encoder/decoder field agreement for all ten converted types (every core field written to and read back from the same protobuf field), presence guards before every scalar accessor and message-field unwrap, label/digest/direction/two-children guards, and a complete enumeration of potential panic sites (unwrap/expect, panics, slice indexing, length-sensitive copies) reachable from the decode entry points inside workspace code, each discharged by a dominating guard of a known form. Round-trip equality of values and third-party parser behaviour are not decided.",
+         "static analysis: sibling field-map agreement, guard dominance, panic-site enumeration over the call graph with interval-free length reasoning (RF-SIB, RF-GUARD, RF-PANIC)"),
 }
 NA = {
  'C08': "the property is arithmetic over runtime values (two marker-version sets computed by bit manipulation always intersect); no shape-of-the-code rule decides it, and the structural part (verifiers enforce the full marker lists) is already decided under C06/C07",
